@@ -52,3 +52,8 @@ Theorem C20_published_never_disappears : forall samples mx0 sched s r1 r2 v1,
   exec2 sched (writer samples mx0) fs0 RStart RStart = (s, r1, r2) ->
   r1 = RDone (RSome v1) -> rdone r2 = true -> r2 <> RDone RNone.
 Proof. exact published_never_disappears. Qed.
+
+(* the decision to rewrite the peak file in the source is the one of the model's writer *)
+From BB Require Import Proofs.GenTieMon Gen.GMon.
+Theorem C20_source_tie_update_cond : forall s mx, GMon.monitor_update_cond s mx = PrimFloat.ltb mx s.
+Proof. exact tie_monitor_cond. Qed.
